@@ -79,12 +79,12 @@ impl Display for TokenKind {
             TokenKind::Lit(_) => "literal",
             TokenKind::Dir(_) => "preprocessor directive",
             TokenKind::Reg(_) => "register",
-            TokenKind::Whitespace
-            | TokenKind::Comment
-            | TokenKind::Eof
-            | TokenKind::Byte(_)
-            | TokenKind::Breakpoint => {
-                unreachable!("whitespace, comment, eof, byte, breakpoint attempted to be displayed")
+            // Data directives and `.BREAK` are replaced by these during preprocessing, and can
+            // end up where an operand is expected (eg. `add .fill x1`)
+            TokenKind::Byte(_) => "data directive",
+            TokenKind::Breakpoint => "breakpoint directive",
+            TokenKind::Whitespace | TokenKind::Comment | TokenKind::Eof => {
+                unreachable!("whitespace, comment, eof attempted to be displayed")
             }
         };
         f.write_str(lit)
